@@ -8,6 +8,7 @@ import QExPy.Model.Uncert
 import QExPy.Real
 import QExPy.Lemmas.Stats
 import QExPy.Lemmas.Uncert
+import QExPy.Lemmas.MCWalk
 
 namespace QExPy
 open Uncert
@@ -155,7 +156,7 @@ theorem mode_error_nonneg (n : List Nat) (edges : List ℝ) (c : ℝ)
     0 ≤ (ModeWalk.modeResult n edges c).2 := by
   have e : (ModeWalk.modeResult n edges c).2 = ((ModeWalk.modeWalk n c).2 : ℝ) *
       ((edges.getD (edges.length - 1) 0 - edges.getD 0 0) / (n.length : ℝ)) := by
-    simp [ModeWalk.modeResult]
+    simp [ModeWalk.modeResult, modeError_eq]
   rw [e]
   exact mul_nonneg (Nat.cast_nonneg _) (div_nonneg (by linarith) (Nat.cast_nonneg _))
 
